@@ -388,6 +388,10 @@ func (e *Engine) fieldVar(t types.Type, i int) string {
 }
 
 func (e *Engine) memVar(t types.Type) string {
+	// byte and uint8 (rune and int32) are one type: one memory
+	if b, ok := t.(*types.Basic); ok && b.Kind() < types.UntypedBool {
+		t = types.Typ[b.Kind()]
+	}
 	return "M:" + typeLabel(t)
 }
 
